@@ -8,29 +8,48 @@ def _norm(t):
     return strip_site(t)
 
 
+_feas_cache = {}
+
+
+def _switch_allows(ft, b, succ, assume):
+    t = ft.blocks[b]["term"]
+    if t["k"] != "switch":
+        return True
+    discr = ft.switch_term(b)
+    v = assume.get(_norm(discr))
+    if v is None:
+        v = fold_cmp(discr, assume)
+        if v is None:
+            return True
+    vals, other = switch_edge_values(t, succ)
+    excl = [int(x) for x, bb in t["targets"] if bb != succ]
+    return v in vals or (other and v not in excl)
+
+
+def feasible_blocks(ft, assume):
+    """blocks reachable from the entry along switch edges compatible with `assume`"""
+    key = (id(ft), tuple(sorted((repr(k), v) for k, v in assume.items())))
+    r = _feas_cache.get(key)
+    if r is not None:
+        return r
+    seen = {0}
+    st = [0]
+    while st:
+        b = st.pop()
+        for s in ft.cfg.succ[b]:
+            if s in seen:
+                continue
+            if _switch_allows(ft, b, s, assume):
+                seen.add(s)
+                st.append(s)
+    _feas_cache[key] = seen
+    return seen
+
+
 def edge_feasible(ft, pred, blk, assume):
     """Is control flow pred->blk compatible with `assume` (dict: stripped discr term -> int)?
-    Looks at the switch edges dominating `pred` and at pred's own switch."""
-    conds = list(ft.conditions(pred))
-    t = ft.blocks[pred]["term"]
-    if t["k"] == "switch":
-        vals, other = switch_edge_values(t, blk)
-        excl = [int(v) for v, bb in t["targets"] if bb != blk]
-        conds.append((ft.switch_term(pred), vals, other, excl, pred))
-    for discr, vals, other, excl, _d in conds:
-        key = _norm(discr)
-        v = assume.get(key)
-        if v is None:
-            # comparison of an assumed term with a constant: Eq/Ne/Lt... fold
-            v = fold_cmp(discr, assume)
-            if v is None:
-                continue
-        if v in vals:
-            continue
-        if other and v not in excl:
-            continue
-        return False
-    return True
+    pred must be reachable along compatible switch edges and the edge itself must be compatible."""
+    return pred in feasible_blocks(ft, assume) and _switch_allows(ft, pred, blk, assume)
 
 
 def fold_cmp(t, assume):
@@ -86,17 +105,7 @@ def return_under(ft, assume):
 
 
 def block_feasible(ft, b, assume):
-    for discr, vals, other, excl, _d in ft.conditions(b):
-        key = _norm(discr)
-        v = assume.get(key)
-        if v is None:
-            v = fold_cmp(discr, assume)
-            if v is None:
-                continue
-        if v in vals or (other and v not in excl):
-            continue
-        return False
-    return True
+    return b in feasible_blocks(ft, assume)
 
 
 def fn_table(facts, path, domain, param=1):
@@ -185,3 +194,117 @@ def _lin(t, tc):
     if t[0] == "cast" and t[1] == "IntToInt" and tc:
         return _lin(t[2], tc)
     return {t: 1}, 0
+
+
+# ---------------------------------------------------------------------- regimes
+
+CMP = {"Eq": lambda a, b: a == b, "Ne": lambda a, b: a != b, "Lt": lambda a, b: a < b,
+       "Le": lambda a, b: a <= b, "Gt": lambda a, b: a > b, "Ge": lambda a, b: a >= b}
+SWAP = {"Eq": "Eq", "Ne": "Ne", "Lt": "Gt", "Le": "Ge", "Gt": "Lt", "Ge": "Le"}
+
+
+def regime_assumptions(ft, var, lo, hi, extra=None):
+    """Assume every switch condition that compares `var` (a term) with an integer constant and has a
+    definite truth value for all var in [lo, hi].  Returns {stripped discr term: 0/1}."""
+    var = strip_site(var)
+    out = dict(extra or {})
+    for b in sorted(ft.cfg.reach):
+        t = ft.blocks[b]["term"]
+        if t["k"] != "switch":
+            continue
+        d = ft.switch_term(b)
+        if d[0] != "bin" or d[1] not in CMP:
+            continue
+        op, x, y = d[1], strip_site(d[2]), strip_site(d[3])
+        if x == var and is_const(d[3]) and const_int(d[3]) is not None:
+            c = const_int(d[3])
+        elif y == var and is_const(d[2]) and const_int(d[2]) is not None:
+            c = const_int(d[2])
+            op = SWAP[op]
+        else:
+            continue
+        tl, th = CMP[op](lo, c), CMP[op](hi, c)
+        # monotone comparisons: definite iff both ends agree (Eq/Ne need care)
+        if op in ("Eq", "Ne"):
+            if lo == hi:
+                out[strip_site(d)] = int(CMP[op](lo, c))
+            elif c < lo or c > hi:
+                out[strip_site(d)] = int(op == "Ne")
+            continue
+        if tl == th:
+            out[strip_site(d)] = int(tl)
+    return out
+
+
+def deep_resolve(ft, t, assume, memo=None, depth=0):
+    """resolve phi nodes under `assume` everywhere inside a term (best effort: ambiguous phis stay)"""
+    if memo is None:
+        memo = {}
+    if not isinstance(t, tuple) or not t or not isinstance(t[0], str):
+        if isinstance(t, tuple):
+            return tuple(deep_resolve(ft, x, assume, memo, depth + 1) for x in t)
+        return t
+    k = t
+    if k in memo:
+        return memo[k]
+    memo[k] = t
+    tag = t[0]
+    if depth > 400:
+        return t
+    if tag == "phi":
+        if t[1] != ft.path:
+            return t
+        r = resolve_under(ft, t, assume)
+        if r is None or r == t:
+            return t
+        r = deep_resolve(ft, r, assume, memo, depth + 1)
+    elif tag in ("const", "param", "static", "tls", "fnref", "promoted", "unknown", "escaped", "uninit"):
+        r = t
+    elif tag == "call":
+        r = ("call", t[1], tuple(deep_resolve(ft, a, assume, memo, depth + 1) for a in t[2]), t[3])
+    elif tag == "deref":
+        from .terms import mk_deref
+        r = mk_deref(deep_resolve(ft, t[1], assume, memo, depth + 1))
+    elif tag == "field":
+        from .terms import mk_field
+        r = mk_field(deep_resolve(ft, t[1], assume, memo, depth + 1), t[2], t[2] if isinstance(t[2], int) else None)
+    else:
+        r = tuple(deep_resolve(ft, x, assume, memo, depth + 1) if isinstance(x, tuple) else x for x in t)
+    memo[k] = r
+    return r
+
+
+def leaves_under(ft, term, assume, seen=None):
+    """all non-phi values a phi term can take along predecessor edges feasible under `assume`"""
+    if seen is None:
+        seen = set()
+    if term[0] != "phi":
+        return [term]
+    if term in seen:
+        return []
+    seen.add(term)
+    out = []
+    for p, t in ft.phi_operands(term).items():
+        if not edge_feasible(ft, p, term[2], assume):
+            continue
+        out += leaves_under(ft, t, assume, seen)
+    uniq = {}
+    for t in out:
+        uniq.setdefault(strip_site(t), t)
+    return list(uniq.values())
+
+
+def returns_under(ft, assume):
+    out = []
+    for rb in ft.return_blocks():
+        if block_feasible(ft, rb, assume):
+            out += leaves_under(ft, ft.return_term(rb), assume)
+    uniq = {}
+    for t in out:
+        uniq.setdefault(strip_site(t), t)
+    return list(uniq.values())
+
+
+def is_variant(t, name):
+    """aggregate construction of enum variant `name` (e.g. 'Ok', 'Err', 'Some')"""
+    return t[0] == "agg" and t[1] == "adt" and t[2].endswith("::" + name)
